@@ -579,9 +579,11 @@ def classify(case, msg):
 # search
 
 
-def make_profile(excl, full):
+def make_profile(excl, full, big=False):
     """full: everything ir_to_python might reject is left in (measures the rejection classes)."""
     return genir.Profile(
+        max_blocks=12 if big else 8,
+        max_ins=14 if big else 10,
         name="c24-full" if full else "c24",
         ptr_bits=32,
         rotates=KF_ROT not in excl,
@@ -612,10 +614,10 @@ def case_strategy(profile, split):
 
 
 def _worker(arg):
-    seed, n, full = arg
+    seed, n, full, big = arg
     stats = Stats()
     excl = open_ids()
-    profile = make_profile(excl, full)
+    profile = make_profile(excl, full, big)
 
     def prop(case):
         for kid in case.get("excluded", ()):
@@ -645,9 +647,9 @@ def _worker(arg):
 
 
 def run(ctx):
-    n = ctx.scale(1400, 60000)
+    n = ctx.scale(1000, 60000)
     args = []
     for w in range(16):
         full = w >= 14  # two of the sixteen shards keep CopyBlob / pointer initialisers in the menu
-        args.append((subseed(ctx.seed, PID, w), n // 16, full))
+        args.append((subseed(ctx.seed, PID, w), n // 16, full, not ctx.quick and w % 2 == 1))
     ctx.pmap(_worker, args)
